@@ -50,7 +50,8 @@ def term_of(body, t):
     if m in ("read_to_vec", "write_bytes", "read_bytes"):
         return ("bytes",)
     if m in ("read_as_to", "write_as_from"):
-        return ("le", ty_bits(a[1]) if len(a) > 1 else "?")
+        en = a[0].rsplit("::", 1)[-1] if a else "?"
+        return ("le" if en == "LittleEndian" else "be" if en == "BigEndian" else en, ty_bits(a[1]) if len(a) > 1 else "?")
     if m in ("read_count", "write_count"):
         return ("cnt", a[0] if a else "?")
     if m in ("read_unary", "write_unary"):
